@@ -162,7 +162,7 @@ func runC03(c *Ctx) {
 	c.whoMayCall("C03.3-who-may-delete", "pods", []string{"Delete", "DeleteCollection"},
 		map[string]string{
 			"(*" + load.CtrlPkg + ".realStatefulPodControl).DeleteStatefulPod": "the real pod control's delete method",
-			"(" + load.K8sPkg + ".RealPodControl).DeletePod":                    "copied upstream helper, unreachable from the controller (checked below)",
+			"(" + load.K8sPkg + ".RealPodControl).DeletePod":                   "copied upstream helper, unreachable from the controller (checked below)",
 		}, 2)
 	c.unreachableFromController("C03.3-unreachable", []string{"(" + load.K8sPkg + ".RealPodControl).DeletePod"}, []string{"pods.DeleteCollection"})
 }
